@@ -2,9 +2,11 @@ package checks
 
 // C14 — inline completions never nest deeper than the dispatch limit.
 //
-// Engine E1 over real descriptors. A program is a cycle of length 1..3 over the 11 operation kinds
+// Engine E1 over real descriptors. A program is a cycle of length 1..3 over 16 operation kinds
 // {conn read, conn write, FIFO read, FIFO write, regular-file read, regular-file write, accept, packet read,
-// packet write, multicast-peer read, multicast-peer write} (all 1463 cycles) and a chain length in
+// packet write, multicast-peer read, multicast-peer write; and five that complete at once with an error: read at
+// end of stream on a connection and on a FIFO, write on a reset connection, oversized datagram through a packet
+// conn and through a multicast peer} (all 4368 cycles) and a chain length in
 // {31,32,33,34,70}; every object is pre-loaded so that each operation can complete immediately; the
 // completion callback of step i issues step i+1 on the next kind of the cycle.
 // Oracle: a harness counter incremented on callback entry and decremented on exit never exceeds
@@ -14,6 +16,7 @@ package checks
 
 import (
 	"fmt"
+	"io"
 	"net"
 	"net/netip"
 	"os"
@@ -27,7 +30,9 @@ import (
 	"verifmc/kern"
 )
 
-var c14Kinds = []string{"conn-read", "conn-write", "fifo-read", "fifo-write", "file-read", "file-write", "accept", "pkt-read", "pkt-write", "mc-read", "mc-write"}
+var c14Kinds = []string{"conn-read", "conn-write", "fifo-read", "fifo-write", "file-read", "file-write", "accept", "pkt-read", "pkt-write", "mc-read", "mc-write",
+	// operations that complete immediately with an error: the accounting must unwind for them exactly as for successes
+	"conn-read-eof", "fifo-read-eof", "conn-write-epipe", "pkt-write-toobig", "mc-write-toobig"}
 
 type c14Env struct {
 	x       *engine.X
@@ -60,6 +65,9 @@ type c14Env struct {
 	mcP     int
 	mcPP    int
 	mcSeq   int
+	eofTcp  sonic.Conn
+	eofFifo sonic.File
+	rstTcp  sonic.Conn
 	closers []func()
 }
 
@@ -89,6 +97,53 @@ func (e *c14Env) need(kind string, count int) {
 			syscall.Write(e.tcpP, genBytes(0, count))
 			kern.AwaitInq(e.tcp.RawFd(), count, settleGuard)
 		}
+	case "conn-read-eof", "conn-write-epipe":
+		lfd, addr, port, err := kern.TCPListener()
+		if err != nil {
+			engine.HarnessError("%v", err)
+		}
+		c, err := sonic.Dial(ioc, "tcp", kern.AddrString(addr, port))
+		if err != nil {
+			engine.HarnessError("Dial: %v", err)
+		}
+		p, _ := kern.AcceptRaw(lfd, settleGuard)
+		syscall.Close(lfd)
+		if kind == "conn-read-eof" {
+			syscall.Shutdown(p, syscall.SHUT_WR) // orderly end of stream: every read reports EOF at once
+			if !kern.AwaitReadReady(c.RawFd(), settleGuard) {
+				e.x.Inconclusive("FIN did not arrive")
+			}
+			e.eofTcp = c
+		} else {
+			kern.Abort(p) // reset: every write fails at once
+			p = -1
+			if !kern.AwaitReadReady(c.RawFd(), settleGuard) {
+				e.x.Inconclusive("RST did not arrive")
+			}
+			var one [1]byte
+			syscall.Read(c.RawFd(), one[:]) // consume the pending ECONNRESET so that writes report EPIPE from the first one on
+			e.rstTcp = c
+		}
+		e.closers = append(e.closers, func() {
+			c.Close()
+			if p >= 0 {
+				kern.Abort(p)
+			}
+		})
+	case "fifo-read-eof":
+		r, w, _ := kern.Pipe(0)
+		f, err := sonic.Open(ioc, fmt.Sprintf("/proc/self/fd/%d", r), syscall.O_RDONLY|syscall.O_NONBLOCK, 0)
+		syscall.Close(r)
+		if err != nil {
+			engine.HarnessError("Open: %v", err)
+		}
+		syscall.Close(w)
+		e.eofFifo = f
+		e.closers = append(e.closers, func() { f.Close() })
+	case "pkt-write-toobig":
+		e.need("pkt-write", count)
+	case "mc-write-toobig":
+		e.need("mc-write", count)
 	case "fifo-read":
 		r, w, _ := kern.Pipe(0)
 		f, err := sonic.Open(ioc, fmt.Sprintf("/proc/self/fd/%d", r), syscall.O_RDONLY|syscall.O_NONBLOCK, 0)
@@ -242,6 +297,47 @@ func (e *c14Env) step(i int) {
 			next()
 			e.leave(i)
 		})
+	case "conn-read-eof", "fifo-read-eof":
+		var f sonic.FileDescriptor = e.eofTcp
+		if kind == "fifo-read-eof" {
+			f = e.eofFifo
+		}
+		b := make([]byte, 1)
+		f.AsyncRead(b, func(err error, n int) {
+			e.enter(i)
+			if err != io.EOF || n != 0 {
+				e.bad(i, "read at end of stream completed with err=%v n=%d, inline it reports io.EOF", err, n)
+			}
+			next()
+			e.leave(i)
+		})
+	case "conn-write-epipe":
+		e.rstTcp.AsyncWrite([]byte{0x77}, func(err error, n int) {
+			e.enter(i)
+			if err == nil || n != 0 {
+				e.bad(i, "write on a reset connection completed with err=%v n=%d", err, n)
+			}
+			next()
+			e.leave(i)
+		})
+	case "pkt-write-toobig":
+		e.pkt.AsyncWriteTo(c14TooBig, &net.UDPAddr{IP: net.IPv4(127, 0, 0, 1), Port: e.pktPP}, func(err error) {
+			e.enter(i)
+			if err == nil {
+				e.bad(i, "a 65508-byte datagram was reported written")
+			}
+			next()
+			e.leave(i)
+		})
+	case "mc-write-toobig":
+		e.mc.AsyncWrite(c14TooBig, netip.AddrPortFrom(netip.AddrFrom4([4]byte{127, 0, 0, 1}), uint16(e.mcPP)), func(err error, n int) {
+			e.enter(i)
+			if err == nil || n != 0 {
+				e.bad(i, "a 65508-byte datagram was reported written: err=%v n=%d", err, n)
+			}
+			next()
+			e.leave(i)
+		})
 	case "accept":
 		e.lst.AsyncAccept(func(err error, c sonic.Conn) {
 			e.enter(i)
@@ -297,6 +393,8 @@ func (e *c14Env) step(i int) {
 		})
 	}
 }
+
+var c14TooBig = make([]byte, 65508) // one byte more than the largest UDP payload over IPv4: sendto fails with EMSGSIZE
 
 func c14Cycles() [][]int {
 	var out [][]int
@@ -401,7 +499,7 @@ func C14(tier string) *engine.Report {
 	var tot engine.DFSTotals
 	d := c14DFS(tier)
 	tot.Add(d.Run(), rep)
-	tot.Fill(rep, "all 1463 cycles of length 1..3 over 11 operation kinds x chain lengths {31,32,33,34,70}, every object pre-loaded so each step can complete immediately, each callback issuing the next step; "+
+	tot.Fill(rep, "all 4368 cycles of length 1..3 over 16 operation kinds (11 that succeed, 5 that complete at once with an error: end of stream on a connection and a FIFO, write on a reset connection, oversized datagram on a packet conn and a multicast peer) x chain lengths {31,32,33,34,70}, every object pre-loaded so each step can complete immediately, each callback issuing the next step; "+
 		"nesting counter, IO.Dispatched after unwinding, per-step result and exactly-once are checked; every case is non-trivial (the chain crosses the dispatch limit, except length 31 which stays just below it)", 0)
 	return rep
 }
